@@ -437,6 +437,30 @@ fn main() {
         }
         trees = ct;
     }
+    // --dangling (C10): instead, link-free trees plus one link whose target does not exist; calls on that link only (the queries
+    // and the calls that have to treat the link as the entry it is: remove, remove_all, move_p, symlink over it)
+    let dangling = flag("dangling");
+    if dangling {
+        let mut dt = vec![];
+        for t in trees.iter().take(linkfree) {
+            let slots = ["/a", "/b", "/a/a", "/a/b", "/b/a", "/b/b"];
+            for (si, slot) in slots.iter().enumerate() {
+                let par = parent(slot);
+                if t.contains_key(*slot) || !(par == "/" || matches!(t.get(&par), Some(Node::Dir))) {
+                    continue;
+                }
+                // a target that is not there: another free path (its parent may be missing as well), not below the link
+                let tg = slots.iter().cycle().skip(si + 1).take(5).find(|x| !t.contains_key(**x) && !x.starts_with(&format!("{}/", slot)));
+                if let Some(tg) = tg {
+                    let mut t2 = t.clone();
+                    t2.insert(slot.to_string(), Node::Link(tg.to_string()));
+                    dt.push(t2);
+                    chain_links.push(slot.to_string());
+                }
+            }
+        }
+        trees = dt;
+    }
     eprintln!("grid: {} link-free trees, {} trees with one link", linkfree, trees.len() - linkfree);
     // call alphabet
     let mut calls: Vec<Value> = vec![];
@@ -470,7 +494,7 @@ fn main() {
     }
     // respelled arguments: relative to the cwd (the root on both sides), unclean, trailing separators; symlink targets relative
     // to the link's directory and not in their shortest spelling
-    if !chains {
+    if !chains && !dangling {
         for (op, a) in [("mkfile", "a//b"), ("mkfile", "./b"), ("mkdir_p", "./a/./b/"), ("mkdir_p", "b/../a/a"), ("remove", "b/../a"), ("remove_all", "./a/"),
                         ("exists", "a/../b"), ("is_dir", "a/"), ("is_file", "./a/b"), ("read_all", "a//b"), ("abs", "a/./b/.."), ("readlink", "./a"), ("readlink_abs", "b/."),
                         ("paths", "./a"), ("all_paths", "a/.."), ("entry", "./b"), ("mode", "b//")] {
@@ -528,7 +552,7 @@ fn main() {
             }
         }
         let t = &t1;
-        let only: Option<&String> = if chains { chain_links.get(ti) } else { None };
+        let only: Option<&String> = if chains || dangling { chain_links.get(ti) } else { None };
         build_std(&root, t);
         std::env::set_current_dir(&root).unwrap();
         let tree_rep = observe(&root);
@@ -551,7 +575,9 @@ fn main() {
             if let Some(l2) = only {
                 // chain trees: only what C10 states about a link - queries on the link that points to a link
                 let q = ["exists", "is_dir", "is_file", "is_symlink", "is_symlink_dir", "is_symlink_file", "readlink", "readlink_abs", "entry", "mode"];
-                if &a != l2 || !q.contains(&c["op"].as_str().unwrap()) {
+                let mu = ["remove", "remove_all", "move_p", "symlink"];
+                let op = c["op"].as_str().unwrap();
+                if &a != l2 || !(q.contains(&op) || (dangling && mu.contains(&op))) {
                     continue;
                 }
             }
